@@ -2,11 +2,11 @@
 # usage: run_all.sh quick|thorough [ids...] — runs the registered checks one after another on the current /repo tree.
 tier=${1:-quick}; shift
 ids="$@"
-[ -z "$ids" ] && ids=$(python3 -c "import json; print(' '.join(c['property_id'] for c in json.load(open('/verif/MANIFEST.json'))['checks']))")
-cd /verif
+cd "$(dirname "$0")/.."
+[ -z "$ids" ] && ids=$(python3 -c "import json; print(' '.join(c['property_id'] for c in json.load(open('MANIFEST.json'))['checks']))")
 for id in $ids; do
   start=$(date +%s)
-  ./check $id --tier $tier > /tmp/runall-$id.log 2>&1; rc=$?
-  echo "$id rc=$rc $(( $(date +%s) - start ))s $(tail -1 /tmp/runall-$id.log | cut -c1-160)"
+  ./check $id --tier $tier > runall-$id.log 2>&1; rc=$?
+  echo "$id rc=$rc $(( $(date +%s) - start ))s $(grep -E '^(VIOLATION|TROUBLE|INCONCLUSIVE)' runall-$id.log | head -3 | tr '\n' ' ') $(tail -1 runall-$id.log | cut -c1-160)"
   if [ "$tier" = thorough ]; then mkdir -p evidence-thorough; cp evidence/$id.json evidence-thorough/$id.json; fi
 done
